@@ -434,29 +434,42 @@ def check_mediation(ctx, rep, rule61="R06.1", rule62="R06.2"):
     p_obj, p_name, p_args, p_over, p_param, p_default = prm[1:]
     rd = Q.ReachingDefs(g)
     dom = Q.dominators(g)
-    acc_calls = [n for n in g.live if n.kind == "stmt" and n.ast is not None and any(
-        isinstance(c.func, ast.Name) and c.func.id not in ("str", "type", "getattr", "bytes") and len(c.args) >= 2 and
-        A.src(c.args[0]) == p_obj and A.src(c.args[1]) == p_name for c in A.calls(n.ast))]
+    def access_call(c):
+        return isinstance(c.func, ast.Name) and c.func.id not in ("str", "type", "getattr", "bytes", "isinstance") and \
+            len(c.args) >= 2 and A.src(c.args[0]) == p_obj and A.src(c.args[1]) == p_name
+    acc_calls = [n for n in g.live if n.kind == "stmt" and n.ast is not None and any(access_call(c) for c in A.calls(n.ast))]
     rep.floor(rule61, "mediated access call accessor(obj, name, *args) in _access_attr", len(acc_calls), 1)
     checks = [n for n in g.live if n.kind == "stmt" and isinstance(n.ast, ast.Assign) and
               A.find_calls(n.ast, "self._check_attr") and isinstance(n.ast.targets[0], ast.Name)
               and n.ast.targets[0].id == p_name]
+    rep.ob(rule61, "_access_attr: the policy is consulted", bool(checks),
+           "name = self._check_attr(obj, name, param)" if checks else
+           "_access_attr never calls _check_attr: every attribute is reachable with the default accessor", fa.loc)
     for cn in acc_calls:
-        call = [c for c in A.calls(cn.ast) if isinstance(c.func, ast.Name) and len(c.args) >= 2
-                and A.src(c.args[1]) == p_name][0]
+        call = [c for c in A.calls(cn.ast) if access_call(c)][0]
         accv = call.func.id
-        defs = rd.at(cn, accv)
+        if accv == p_default:
+            defs = {"param"}
+            default_direct = True
+        else:
+            defs = rd.at(cn, accv)
+            default_direct = False
         default_defs = [d for d in defs if d != "param" and isinstance(d.ast, ast.Assign) and A.src(d.ast.value) == p_default]
         hook_defs = [d for d in defs if d != "param" and d not in default_defs]
-        okdefs = bool(default_defs) and all(
-            A.find_calls(d.ast, "getattr") and "type(%s)" % p_obj in A.src(d.ast) for d in hook_defs)
-        rep.ob(rule61, "_access_attr: the accessor is the object's own type-level hook or the operation's default", okdefs,
-               "accessor defs: %s" % [d.text() for d in defs if d != "param"] if okdefs else
-               "the accessor can be something other than getattr(type(obj), overrider, None) / default: %s"
+        okdefs = (default_direct or bool(default_defs) or bool(hook_defs)) and all(
+            A.find_calls(d.ast, "getattr") and "type(%s)" % p_obj in A.src(d.ast) for d in hook_defs) and \
+            (default_direct or "param" not in defs)
+        rep.ob(rule61, "_access_attr: `%s` applies the object's own type-level hook or the operation's default" % A.norm(call)[:40],
+               okdefs, "accessor: %s" % ("the default operation" if default_direct else [d.text() for d in defs if d != "param"])
+               if okdefs else "the accessor can be something other than getattr(type(obj), overrider, None) / default: %s"
                % [d.text() if d != "param" else "param" for d in defs], ctx.loc(cn))
+        if default_direct:
+            namedefs = rd.at(cn, p_name)
+            okp = bool(namedefs) and all(x in checks for x in namedefs)
+            rep.ob(rule61, "_access_attr: with the default accessor the name is the one _check_attr returned", okp,
+                   "every definition of the name reaching `%s` is the result of self._check_attr" % A.norm(call)[:40] if okp else
+                   "the default accessor can be applied to a name that did not pass _check_attr", ctx.loc(cn))
         for dd in default_defs:
-            # every path from choosing the default accessor to the access passes the policy check on the name,
-            # or the check already happened before with no later redefinition
             bad = Q.find_path(dd, [cn], avoid=checks, labels=("next", "true", "false"))
             okp = bad is None
             if not okp:
@@ -467,35 +480,101 @@ def check_mediation(ctx, rep, rule61="R06.1", rule62="R06.2"):
                    "name = self._check_attr(obj, name, param) lies on every path from `accessor = default` to the access"
                    if okp else "the default accessor can be applied to a name that did not pass _check_attr",
                    ctx.loc(dd), witness=ctx.path(bad) if bad and not okp else None)
-        for c in checks:
-            for cc in A.find_calls(c.ast, "self._check_attr"):
-                oka = [A.src(a) for a in cc.args] == [p_obj, p_name, p_param]
-                rep.ob(rule61, "_access_attr: _check_attr is asked about this object, this name, this operation", oka,
-                       "self._check_attr(%s, %s, %s)" % (p_obj, p_name, p_param) if oka else
-                       "_check_attr is called with %s" % [A.src(a) for a in cc.args], ctx.loc(cc))
-        # the call hands on name and args unchanged
+        if hook_defs and not default_direct:
+            # the hook is only called when it exists: the call is not reachable with accessor None unless replaced by default
+            pass
         okcall = [A.src(a) for a in call.args] == [p_obj, p_name, "*" + p_args]
-        rep.ob(rule61, "_access_attr: the access applies (obj, name, *args) unchanged", okcall,
+        rep.ob(rule61, "_access_attr: `%s` applies (obj, name, *args) unchanged" % A.norm(call)[:40], okcall,
                "`%s`" % A.src(call) if okcall else "the access is `%s`" % A.src(call), ctx.loc(call))
-        # type gate
-        raises_te = [n for n in g.live if isinstance(n.ast, ast.Raise) and TypeError in (n.raises or ())]
-        gate_tests = [n for n in g.live if n.kind == "test" and "type(%s)" % p_name in A.src(n.ast)]
-        okg = bool(raises_te) and bool(gate_tests) and all(
-            any(t.id in dom[r.id] for t in gate_tests) for r in raises_te) and \
-            any(t.id in dom[cn.id] for t in gate_tests)
-        # a non-text name must not reach the access: from the "is not str" edge only the raise
-        if okg:
-            p = None
-            for t in gate_tests:
-                if "is not str" in A.src(t.ast):
-                    for s, l in t.succ:
-                        if l == "true":
-                            p = Q.find_path(s, [cn], labels=("next", "true", "false"), skip_first=False)
-            okg = p is None
-        rep.ob(rule61, "_access_attr: a name that is not text is refused with TypeError before any access", okg,
-               "type(name) gate dominates the access; bytes are decoded, anything else raises TypeError" if okg else
-               "the bytes/str type gate no longer dominates the access (a non-text name reaches getattr/_rpyc_* hooks)",
-               ctx.loc(cn))
+    for c in checks:
+        for cc in A.find_calls(c.ast, "self._check_attr"):
+            oka = [A.src(a) for a in cc.args] == [p_obj, p_name, p_param]
+            rep.ob(rule61, "_access_attr: _check_attr is asked about this object, this name, this operation", oka,
+                   "self._check_attr(%s, %s, %s)" % (p_obj, p_name, p_param) if oka else
+                   "_check_attr is called with %s" % [A.src(a) for a in cc.args], ctx.loc(cc))
+    # objects with their own hook decide instead of the configuration: no configuration switch is evaluated on the way to a
+    # hook call (the hook variable's definitions are the type-level lookup)
+    cfg_tests = [n for n in g.live if n.kind == "test" and "self._config" in A.src(n.ast)]
+    cfg_tests += [n for n in g.live if n.kind == "test" and isinstance(n.ast, ast.Subscript) and isinstance(n.ast.value, ast.Name)
+                  and any(d != "param" and "self._config" in A.src(d.ast) for d in rd.at(n, n.ast.value.id))]
+    for cn in acc_calls:
+        call = [c for c in A.calls(cn.ast) if access_call(c)][0]
+        if call.func.id == p_default:
+            continue
+        hook = [d for d in rd.at(cn, call.func.id) if d != "param" and A.find_calls(d.ast, "getattr")]
+        if not hook:
+            continue
+        gate = [t for t in cfg_tests if t.id in dom[cn.id] or Q.find_path(t, [cn], labels=("next", "true", "false"))]
+        # tests that only sit on the default branch (after `accessor is None`) are fine: they do not dominate the hook path
+        on_hook_path = []
+        for t in gate:
+            conds = {A.src(x.ast): pol for x, pol in Q.dominating_conditions(g, t, dom)}
+            if conds.get("%s is None" % call.func.id) is True or conds.get("%s is not None" % call.func.id) is False:
+                continue
+            on_hook_path.append(t)
+        rep.ob("R06.4" if rule61 == "R06.1" else rule61, "_access_attr: objects with their own hook are not subject to the configuration switches",
+               not on_hook_path, "no configuration test lies on the path to the hook call" if not on_hook_path else
+               "`%s` is evaluated before the object's own hook is consulted: the connection's allow_* switch overrides hook-bearing "
+               "objects (restricted views become unwritable / unreadable)" % on_hook_path[0].text()[:50],
+               ctx.loc(on_hook_path[0]) if on_hook_path else fa.loc)
+    # ---- the text-type gate, by partial evaluation over the abstract type of the name
+    type_aliases = set()
+    for n in g.live:
+        if n.kind == "stmt" and isinstance(n.ast, ast.Assign) and isinstance(n.ast.targets[0], ast.Name) and \
+                A.src(n.ast.value) == "type(%s)" % p_name:
+            type_aliases.add(n.ast.targets[0].id)
+
+    def type_decider(tp):
+        def decide(node):
+            e = node.ast
+            if isinstance(e, ast.Call) and A.call_name(e) == "isinstance":
+                return None       # isinstance is not an exact type test: unknown
+            if not (isinstance(e, ast.Compare) and len(e.ops) == 1):
+                return None
+            l, r, op = e.left, e.comparators[0], e.ops[0]
+
+            def is_type_of_name(x):
+                return A.src(x) == "type(%s)" % p_name or (isinstance(x, ast.Name) and x.id in type_aliases)
+            if is_type_of_name(l):
+                other = ctx.try_fold(r)
+            elif is_type_of_name(r):
+                other = ctx.try_fold(l)
+            else:
+                return None
+            if other is None:
+                return None
+            if isinstance(op, (ast.Is, ast.Eq)):
+                return tp is other
+            if isinstance(op, (ast.IsNot, ast.NotEq)):
+                return tp is not other
+            if isinstance(op, ast.In):
+                return tp in other
+            if isinstance(op, ast.NotIn):
+                return tp not in other
+            return None
+        return decide
+    class _Other(object):
+        pass
+    acc_set = set(acc_calls)
+    r_other = Q.reach_under([g.entry], type_decider(_Other))
+    leaks = [n for n in r_other if n in acc_set or n in checks]
+    raises_te = [n for n in r_other if isinstance(n.ast, ast.Raise) and TypeError in (n.raises or ())]
+    okg = not leaks and bool(raises_te) and g.exit not in r_other
+    rep.ob(rule61, "_access_attr: a name that is not text is refused with TypeError before any access", okg,
+           "for a name whose exact type is neither str nor bytes only `raise TypeError` is reachable" if okg else
+           "a name that is neither str nor bytes can reach %s: objects passed by reference (e.g. a str subclass whose methods "
+           "the peer controls) take part in the policy decision" % (leaks[0].text()[:50] if leaks else "the end of the function"),
+           ctx.loc(leaks[0]) if leaks else fa.loc)
+    okb_e = Q.valuation_edges(type_decider(bytes))
+    decodes = [n for n in g.live if n.kind == "stmt" and isinstance(n.ast, ast.Assign) and isinstance(n.ast.targets[0], ast.Name)
+               and n.ast.targets[0].id == p_name and (A.find_calls(n.ast.value, "str") or any(
+                   isinstance(c.func, ast.Attribute) and c.func.attr == "decode" for c in A.calls(n.ast.value)))]
+    did = {n.id for n in decodes}
+    pb = Q.find_path_ef(g.entry, lambda x: x in acc_set or x in checks,
+                        lambda a, b, l: l != "exc" and okb_e(a, b, l) and a.id not in did)
+    rep.ob(rule61, "_access_attr: a bytes name is decoded to text before it is used", pb is None,
+           "every path taken for a bytes name passes `name = str(name, 'utf8')`" if pb is None else
+           "a bytes name reaches the policy / the access without being decoded", fa.loc, witness=ctx.path(pb) if pb else None)
     # R06.2 triples
     sites = [(fu, c) for fu, c in ctx.call_sites("self._access_attr")]
     rep.floor(rule62, "call sites of _access_attr", len(sites), 4)
